@@ -605,7 +605,21 @@ func c10Twin(e *Env, kind string) {
 		case "tcp":
 			x, y := NewStream(e, &net.TCPAddr{IP: a.addr.IP, Port: a.addr.Port}, TCPAddr("10.0.0.100", 5683))
 			a.sc = x
-			w1.lis.Connect(y)
+			if t.Chance(1, 3) {
+				// a TLS peer that opens the stream and never sends its ClientHello: the handshake of this connection
+				// ends only when the connection's context does (Stop has to reach it)
+				e.Fault("adv.handshake.stall")
+				w1.lis.Connect(&SimTLSConn{SimConn: y, Handshake: func(ctx context.Context) error {
+					select {
+					case <-ctx.Done():
+						return ctx.Err()
+					case <-y.ClosedCh():
+						return net.ErrClosed
+					}
+				}})
+			} else {
+				w1.lis.Connect(y)
+			}
 		case "dtls":
 			a.pc = NewPacketConn(e, w1.srvAddr, a.addr)
 			mode := t.Choose(3) // 0 handshake ok, 1 fails, 2 stalls until its context ends
